@@ -40,6 +40,14 @@ func (o Op) String() string {
 		return "delete " + o.P
 	case "move":
 		return fmt.Sprintf("move %s %s", o.P, o.Q)
+	case "init-first":
+		return "Initialize (empty drive)"
+	case "init-again":
+		return "Initialize (again, same instance)"
+	case "open-existing":
+		return "Initialize (fresh instance, same tape, same index)"
+	case "open-noindex":
+		return "Initialize (fresh instance, same tape, empty index)"
 	case "hopen":
 		return fmt.Sprintf("h%d=open %s %s", o.H, o.P, FlagString(o.N))
 	case "hread":
@@ -519,13 +527,13 @@ func (m Member) perm() uint32 {
 
 // MemberPool is the fixed pool the archive-level alphabet draws from.
 var MemberPool = map[string]Member{
-	"d":  {Name: "/d", Dir: true},
-	"e":  {Name: "/e", C: ""},
-	"f":  {Name: "/d/f", C: "hello"},
-	"g":  {Name: "/g", C: "T1300"},
-	"n":  {Name: "/d/n", C: "T512:3"},
-	"h":  {Name: "/h", C: "T511:5"},
-	"k":  {Name: "/k", C: "T513:7"},
+	"d": {Name: "/d", Dir: true},
+	"e": {Name: "/e", C: ""},
+	"f": {Name: "/d/f", C: "hello"},
+	"g": {Name: "/g", C: "T1300"},
+	"n": {Name: "/d/n", C: "T512:3"},
+	"h": {Name: "/h", C: "T511:5"},
+	"k": {Name: "/k", C: "T513:7"},
 }
 
 // Members parses a comma separated list of pool ids.
